@@ -61,7 +61,7 @@ Theorem C15_flow_exceptions_caught_at : forall run,
      call_block run body s1 = (s2, Exc KContinue p) ->
      step run (TWhile cond body els it) s = run (TWhile cond body els true) s2)
   /\ (forall body cenv isfn s s3 p,
-     run (TChunk body) (set_frame s cenv [] true) = (s3, Exc KReturn p) ->
+     run (TChunk body) (enter_frame (set_frame s cenv [] true)) = (s3, Exc KReturn p) ->
      st_defers s3 = [] ->
      snd (call_closure run [] None [] body cenv isfn [] [] s)
      = if isfn then Done [] else Exc KReturn p)
@@ -82,13 +82,14 @@ Theorem C15_scoping_lexical : forall run args rest opts body cenv isfn vals sopt
   exists s1 e1,
     alloc_all s (combine args vals' ++ obs) cenv = (s1, e1)
     /\ call_closure run args rest opts body cenv isfn vals sopts s
-       = settle (run (TChunk body) (set_frame s1 e1 [] true)) (fun s3 o =>
+       = settle (run (TChunk body) (enter_frame (set_frame s1 e1 [] true))) (fun s3 o =>
            let o1 := match o with
                      | Exc KReturn _ => if isfn then Done [] else o
                      | _ => norm o
                      end in
-           settle (run_defers run (st_defers s3) (set_defers s3 []) None) (fun s4 o' =>
-             (set_frame s4 (st_env s) (st_defers s) (st_infn s),
+           settle (run_defers run (g_next (st_ghost s1)) (st_defers s3) (set_defers s3 []) None) (fun s4 o' =>
+             (leave_frame (set_frame s4 (st_env s) (st_defers s) (st_infn s))
+                          (g_next (st_ghost s1)) (g_frame (st_ghost s)),
               match o1 with Done _ => norm o' | _ => o1 end))).
 Proof. exact scoping_lexical. Qed.
 Print Assumptions C15_scoping_lexical.
